@@ -60,10 +60,11 @@ KindOK(requested, reported) ==
 (* what build_auto does (not fixed by C20: a mismatch here is drift only)   *)
 AutoKind(npat, sk) == IF sk # "both" /\ npat <= 100 THEN "dfa" ELSE "c"
 
-MetaOK(P, mk, sk, rep) ==
-    /\ rep.npat = Len(P)
-    /\ Len(P) > 0 => /\ rep.minlen = MinOf({Len(P[k]) : k \in 1..Len(P)})
-                     /\ rep.maxlen = MaxOf({Len(P[k]) : k \in 1..Len(P)})
-    /\ rep.mk = mk /\ rep.sk = sk
+(* lens: the lengths of the supplied patterns, in order *)
+MetaOK(lens, mk, sk, rep) ==
+    /\ rep.npat = Len(lens)
+    /\ Len(lens) > 0 => /\ rep.minlen = MinOf({lens[k] : k \in 1..Len(lens)})
+                        /\ rep.maxlen = MaxOf({lens[k] : k \in 1..Len(lens)})
+    /\ rep.mkrep = mk /\ rep.skrep = sk
 
 =============================================================================
